@@ -108,6 +108,8 @@ def generated_unit(root, idx, bias=None, stream="program", **kw):
     rng = sched.rng_for(root, stream, idx)
     if kw.pop("nearmiss", False):
         return gen_random.generate_nearmiss(rng)
+    if kw.pop("nearmiss4", False):
+        return gen_random.generate_nearmiss_datadep(rng)
     if kw.pop("nearmiss3", False):
         return gen_random.generate_nearmiss_yieldend(rng)
     if kw.pop("nearmiss2", False):
